@@ -787,6 +787,21 @@ impl FarmWorld {
                 });
                 fin!(r);
             }
+            "upgrade" => {
+                // the owner upgrades the deployed farm to the same code: `upgrade()` must leave every observable cell alone
+                // (in particular it must not re-base the position-migration nonce of a farm that already has positions)
+                // (worlds deployed at epoch 0 store first_week_start_epoch = 0, which the storage layer cannot tell from
+                // "empty": there `upgrade` would legitimately re-base the week clock — not a deployment that exists on chain,
+                // so the call is made only in worlds whose week clock starts at a non-zero epoch)
+                if self.epoch0 != 0 {
+                    let r = farm_call!(self, self.addr(OWNER_ID), vec![], |sc| {
+                        sc.upgrade();
+                    });
+                    fin!(r);
+                } else {
+                    res.ok = true;
+                }
+            }
             "pause" => {
                 let r = farm_call!(self, self.addr(w[1].parse().unwrap()), vec![], |sc| {
                     sc.pause();
